@@ -263,11 +263,19 @@ static void do_bytes_enc(hctx* h, int strings, const carquet_byte_array_t* vals,
     carquet_buffer_t out; carquet_buffer_init(&out);
     size_t total = 0; for (int i = 0; i < n; i++) total += (size_t)vals[i].length;
     fprintf(h->out, "%s vals=", strings ? "ds_enc" : "dl_enc"); put_strs(h->out, vals, n); h_call(h);
+    /* an encoder APPENDS: in two cases of three the buffer already holds bytes (a page under construction: levels first, the
+     * values behind them); they must still be there afterwards and what was added must be the encoding */
+    size_t pre = (total + (size_t)n) % 3 == 0 ? 0 : 1 + (total * 7 + (size_t)n) % 41;
+    for (size_t q = 0; q < pre; q++) { uint8_t c = (uint8_t)(0xC3 ^ q); (void)!carquet_buffer_append(&out, &c, 1); }
     carquet_status_t st = strings ? carquet_delta_strings_encode(vals, n, &out) : carquet_delta_length_encode(vals, n, &out);
-    size_t written = st == CARQUET_OK ? carquet_buffer_size(&out) : 0;
-    fprintf(h->out, " | st=%d out=", (int)st); h_hex(h->out, carquet_buffer_data(&out), written);
+    int pre_ok = carquet_buffer_size(&out) >= pre;
+    for (size_t q = 0; pre_ok && q < pre; q++) if (carquet_buffer_data(&out)[q] != (uint8_t)(0xC3 ^ q)) pre_ok = 0;
+    if (st != CARQUET_OK && carquet_buffer_size(&out) != pre) pre_ok = 0;        /* a failed encode adds nothing */
+    size_t written = st == CARQUET_OK && pre_ok ? carquet_buffer_size(&out) - pre : 0;
+    fprintf(h->out, " | st=%d out=", (int)st); h_hex(h->out, carquet_buffer_data(&out) + (pre_ok ? pre : 0), written);
+    fprintf(h->out, " p_appends=%d", pre_ok);
     if (st == CARQUET_OK) {
-        uint8_t* in = h_alloc(written); memcpy(in, carquet_buffer_data(&out), written);
+        uint8_t* in = h_alloc(written); if (written) memcpy(in, carquet_buffer_data(&out) + pre, written);
         carquet_byte_array_t* back = (carquet_byte_array_t*)h_alloc((size_t)n * sizeof *back);
         uint8_t* wb = h_alloc(total); size_t consumed = (size_t)-1;
         carquet_status_t s2 = strings ? carquet_delta_strings_decode(in, written, back, n, wb, total, &consumed)
